@@ -21,26 +21,28 @@ Definition I64_MIN_Z : Z := (-9223372036854775808)%Z.
 Definition I64_MAX_Z : Z := 9223372036854775807%Z.
 Definition U64_MAX_Z : Z := 18446744073709551615%Z.
 
-(* map_json_primitive *)
-Definition map_json_primitive (v : jval) : rlit :=
+(* map_json_primitive; None = Err (since fix d86674e: "json: the number .. does not fit a 64-bit signed integer" /
+   "json: a cell must be a string, a number, a boolean or null"; before, these cells became NULL: finding C08-N2) *)
+Definition map_json_primitive (v : jval) : option rlit :=
   match v with
-  | JNull => RNull
-  | JBool b => RBool b
+  | JNull => Some RNull
+  | JBool b => Some (RBool b)
   | JInt z =>
-      if ((I64_MIN_Z <=? z) && (z <=? I64_MAX_Z))%Z then RInt z            (* Number(n) if n.is_i64() *)
-      else if ((I64_MAX_Z <? z) && (z <=? U64_MAX_Z))%Z then RNull          (* PosInt above i64::MAX: neither is_i64 nor is_f64 -> `Number(_) => Literal::Null` *)
-      else RFloat                                                           (* beyond u64 / below i64: serde_json made it an f64 *)
-  | JReal => RFloat
-  | JString s => RString s
-  | JArray | JObject => RNull
+      if ((I64_MIN_Z <=? z) && (z <=? I64_MAX_Z))%Z then Some (RInt z)      (* Number(n) if n.is_i64() *)
+      else if ((I64_MAX_Z <? z) && (z <=? U64_MAX_Z))%Z then None           (* PosInt above i64::MAX: neither is_i64 nor is_f64 *)
+      else Some RFloat                                                      (* beyond u64 / below i64: serde_json made it an f64 *)
+  | JReal => Some RFloat
+  | JString s => Some (RString s)
+  | JArray | JObject => None
   end.
 
-(* does the cell keep its value?  (JReal: up to the float path) *)
-Definition json_cell_kept (v : jval) : bool :=
+(* the literal that stands for the cell's value (JReal, and integers serde_json reads as f64: the float path) *)
+Definition json_literal_of (v : jval) : option rlit :=
   match v with
-  | JInt z => negb ((I64_MAX_Z <? z) && (z <=? U64_MAX_Z))%Z
-  | JArray | JObject => false
-  | _ => true
+  | JNull => Some RNull | JBool b => Some (RBool b)
+  | JInt z => if ((I64_MIN_Z <=? z) && (z <=? I64_MAX_Z))%Z then Some (RInt z) else Some RFloat
+  | JReal => Some RFloat | JString s => Some (RString s)
+  | JArray | JObject => None
   end.
 
 Definition rlit_view (l : rlit) : N * str * (N * N) :=
@@ -49,3 +51,4 @@ Definition rlit_view (l : rlit) : N * str * (N * N) :=
   | RString s => (4, s, (0, 0)) | RDate s => (7, s, (0, 0)) | RTime s => (8, s, (0, 0)) | RTimestamp s => (9, s, (0, 0))
   | RValueAndUnit => (10, [], (0, 0))
   end%N.
+Definition json_cell_view (v : jval) : option (N * str * (N * N)) := option_map rlit_view (map_json_primitive v).
